@@ -537,7 +537,7 @@ fn level_of(prop: &str) -> &'static str {
 
 fn rule_of(prop: &str) -> String {
     let specific = match prop {
-        "C01" => "non-trivial: a forged/corrupted message reached an interpreter invocation; distinct by (result code, message prefix) of that invocation",
+        "C01" => "non-trivial: a forged/corrupted message, a mutated script, malformed call results or a boundary-valued service result (profile `odd`) reached an interpreter invocation; distinct by (result code, message prefix) of that invocation",
         "C02" => "non-trivial: a run whose outcome class was checked; distinct by (class, code, size of previous data / trace length)",
         "C03" => "non-trivial: produced data holding results of >=2 peers, all of whose signatures were verified and which two shadow peers accepted; distinct by per-peer result counts and trace length",
         "C04" => "non-trivial: a run merging a delivered message into non-empty previous data; distinct by (sizes, peer)",
@@ -550,10 +550,10 @@ fn rule_of(prop: &str) -> String {
         "C08" => "non-trivial: a history whose >=3 data blobs with >=2 distinct results were merged in 3 orders, one grouping and at a participant; distinct by the set of content ids",
         "C11" => "non-trivial: a canon instance whose value was seen by a second call (another peer or a later time) and compared, or a first canon execution whose content was checked against the stream; distinct by canon instance, value and reader",
         "C12" => "non-trivial: a run in which a stream held values of the previous data and values that came only with the current data; distinct by the per-stream (generation, content id) lists",
-        "C13" => "non-trivial: a local canon over >=2 appends checked against the replayed appends, or a quiescent fold whose visits were compared with the stream; distinct by value lists",
+        "C13" => "non-trivial: a local canon over >=2 appends checked against the replayed appends, a quiescent fold whose visits were compared with the stream, or an n x m append script at the stream size limit whose length / limit error was checked; distinct by value lists resp. (n, m)",
         "C14" => "non-trivial: a forged message delivered to an honest peer and either rejected as required or compared position by position with its untampered twin; distinct by (op kinds, result code / trace length)",
         "C15" => "non-trivial: an equivocation (incomparable multisets) that was rejected, or a nested pair with different sizes whose kept signature was checked; distinct by (peer, set sizes)",
-        "C16" | "C17" => "non-trivial: a call request matched against the reference evaluator (C17: with a non-literal origin or a lens); distinct by (function, arguments) resp. expected tetraplets",
+        "C16" | "C17" => "non-trivial: a call request matched against the reference evaluator (C17: with a non-literal origin or a lens), or (C17) a whole canon-stream argument whose element tetraplets were checked against the CID stores and the values' embedded origin; distinct by (function, arguments) resp. expected tetraplets / (function, peer) of canon elements",
         "C18" => "non-trivial: a history in which the xor right branch ran and its (error_code, message) was compared with the uncaught variant; distinct by the compared pairs and script size",
         "C20" => "non-trivial: a history whose digests agreed under both hash-seed families, or a run with >=2 requests/next peers (or a 30000) re-executed in-process; distinct by history resp. outcome",
         "C21" => "non-trivial: a run whose current data carried a stamped version, accepted or rejected as required; distinct by (version, receiving peer, size of its previous data)",
